@@ -157,6 +157,25 @@ def run(tier):
         if p.returncode != 0 or b"out-m" not in p.stdout or b"Output: 8" not in p.stdout:
             bad += 1; ck.violation("run-output:multi", "penne run %s does not run the linked program (expected its output and exit status 8)" % " ".join(order),
                                    "exit %d\nstdout: %s\nstderr: %s" % (p.returncode, p.stdout[-500:], p.stderr[-800:]))
+    # an environment variable that is set outranks the config file and the default even when its value cannot
+    # be used (not Unicode): the lower-ranked backend must not run in its place; the flag still outranks it
+    for sub, var, flag in (("build", "PENNE_BACKEND", False), ("run", "PENNE_LLI", False), ("build", "PENNE_BACKEND", True), ("run", "PENNE_LLI", True)):
+        e = os.path.join(root, "env-%s-%d" % (sub, flag)); shutil.rmtree(e, ignore_errors=True); os.makedirs(e)
+        open(os.path.join(e, "a.pn"), "w").write(VALID_A)
+        for nm in ("stubF", "stubC", "clang", "lli"): make_stub(e, nm, "0")
+        args = [PENNE, sub, "--out-dir", "out"]
+        if sub == "build":
+            open(os.path.join(e, "cfg.toml"), "w").write('backend = "%s"\n' % os.path.join(e, "stubC")); args += ["--config", "cfg.toml"]
+        if flag: args += ["--backend", os.path.join(e, "stubF")]
+        env = {k.encode(): v.encode() for k, v in os.environ.items() if k not in ("PENNE_BACKEND", "PENNE_LLI")}
+        env[b"PATH"] = e.encode(); env[var.encode()] = b"\xff\xfe"
+        p = subprocess.run(args + ["a.pn"], cwd=e, env=env, capture_output=True, timeout=120)
+        log = [l.split(" ")[0] for l in open(os.path.join(e, "invoked.log")).read().split("\n") if l] if os.path.exists(os.path.join(e, "invoked.log")) else []
+        want = ["stubF"] if flag else []
+        if log != want or (p.returncode == 0) != flag:
+            bad += 1; ck.violation("wrong-backend:unusable-environment-variable", "penne %s with %s set to a non-Unicode value%s: exit %d, invoked %s (expected %s)" % (
+                sub, var, " and --backend" if flag else "", p.returncode, log, want or "no backend and a non-zero status"),
+                "cwd %s\nargv %s\n%s=\\xff\\xfe\nexit %d\nstderr: %s" % (e, args, var, p.returncode, p.stderr.decode(errors="replace")[-600:]))
     # absolute input path with --out-dir (D17)
     ab = os.path.join(d, "a.pn")
     p = subprocess.run([PENNE, "emit", "--out-dir", "outabs", ab], cwd=d, capture_output=True, timeout=120)
